@@ -448,6 +448,32 @@ func runR054(c *core.Ctx) {
 		}
 		n++
 		first := leftmostOperand(call.Args[0])
+		// a pattern hoisted into a local (`pattern := r.prefix + root`) starts with what its only definition starts with
+		for depth := 0; depth < 3; depth++ {
+			v, ok := core.ObjOf(inf, first).(*types.Var)
+			if !ok || v.IsField() {
+				break
+			}
+			var defs []ast.Expr
+			ast.Inspect(mux.Body, func(y ast.Node) bool {
+				if as, ok := y.(*ast.AssignStmt); ok {
+					for i, l := range as.Lhs {
+						if core.ObjOf(inf, l) == v {
+							if len(as.Lhs) == len(as.Rhs) && as.Tok != token.ADD_ASSIGN {
+								defs = append(defs, as.Rhs[i])
+							} else {
+								defs = append(defs, nil)
+							}
+						}
+					}
+				}
+				return true
+			})
+			if len(defs) != 1 || defs[0] == nil {
+				break
+			}
+			first = leftmostOperand(defs[0])
+		}
 		c.Check(core.ObjOf(inf, first) == prefixField, rel, "(*rootNode).AddToMux", fmt.Sprintf("mux pattern #%d starts with the mount prefix field", n), call.Pos(), "", "pattern "+core.ExprString(call.Args[0])+" does not start with r.prefix")
 		return true
 	})
